@@ -21,7 +21,7 @@ meta["existing_tests_with_patch"] = out.strip()
 ok_existing = 'ok. 44 passed' in out
 rc, out = sh(f"cd {wt} && timeout -s KILL 600 cargo test --offline --test demo 2>&1 | grep -E '^test result|panicked' | head -5")
 meta["demo_with_patch"] = out.strip()
-demo_fails = 'FAILED' in out or 'failed' in out or rc == 124
+demo_fails = 'FAILED' in out or 'failed' in out or 'panicked' in out or rc == 124
 # (git stash is shared between worktrees: undo the change with git apply -R instead)
 rc, out = sh(f"cd {wt} && git apply -R patch.diff && timeout -s KILL 600 cargo test --offline --test demo 2>&1 | grep -E '^test result' ; git apply patch.diff")
 meta["demo_without_patch"] = out.strip()
